@@ -1436,6 +1436,11 @@ def c11_ll_wiring():
         s = vrepr(p[0].value) if p and p[0].outcome == 'return' else repr(p)
         ok = s.startswith('call:attr:sum(call:dadi.Inference.ll_per_bin(op:Mult(call:dadi.Inference.optimal_sfs_scaling(model, data), model), data')
         out.append(struct('C11/Inference.py:ll_multinom/wiring', ok, 'll_multinom = ll_per_bin(theta_opt*model, data).sum(): %s' % s[:140], 'dadi/Inference.py::ll_multinom'))
+        p = ex.run(ex.func('dadi/Inference.py', 'optimally_scaled_sfs'), [model, data])
+        s = vrepr(p[0].value) if len(p) == 1 and p[0].outcome == 'return' else repr(p)
+        ok = s in ('op:Mult(call:dadi.Inference.optimal_sfs_scaling(model, data), model)', 'op:Mult(model, call:dadi.Inference.optimal_sfs_scaling(model, data))')
+        out.append(struct('C11/Inference.py:optimally_scaled_sfs/wiring', ok, 'optimally_scaled_sfs = optimal_sfs_scaling(model, data) * model (scaling of this model against this data, applied to the model): %s' % s[:140],
+                          'dadi/Inference.py::optimally_scaled_sfs'))
         for dfold, mfold in itertools.product([False, True], repeat=2):
             data, model = _spectra(dfold, mfold)
             ex2 = Executor()
@@ -1772,13 +1777,15 @@ def c02_driver_two_steps(K):
 
 
 # ---------------------------------------------------------------- C02: the constant-parameter 1-D driver assembles the same system as the C kernel contract
-def c02_const_1d(n):
-    """_one_pop_const_params on a grid of n symbolic points, one step (T - initial_t <= dt); _compute_delj by its contract (entry k = delj(M, dx, V) at
+def c02_const_1d(n, late_start=False):
+    """(late_start=True: the same with initial_t > 0 and a time step longer than T itself - the single step then has length T - initial_t whatever the
+    driver takes for its clock's origin; obligations for the entries that depend on the step, b and r, under `.late-start`)
+    _one_pop_const_params on a grid of n symbolic points, one step (T - initial_t <= dt); _compute_delj by its contract (entry k = delj(M, dx, V) at
     midpoint k, an uninterpreted function of those three values: with the Chang-Cooper switch off it is 1/2, see c02_compute_delj_py):
     tridiag.tridiag(a, b', c, r) receives entry by entry the a, b + abs + 1/dt, c of the contract of compute_abc_nobc (contracts/c_shared.abc_closed)
     for V = x(1-x)/nu (beta+1)^2/(4 beta), M = 2 gamma x(1-x)(h+(1-2h)x) at the midpoints, Delta the trapezoid factors, delj as above, and r = (phi + influx)/dt:
     the same linear system as implicit_1Dx (C02 kernel contract), so constant and time-function parameters take the same step."""
-    oid = 'C02/Integration.py:_one_pop_const_params/system.n%d' % n
+    oid = 'C02/Integration.py:_one_pop_const_params/system.n%d%s' % (n, '.late-start' if late_start else '')
     fn = 'dadi/Integration.py::_one_pop_const_params'
 
     @guarded(oid, fn)
@@ -1788,14 +1795,14 @@ def c02_const_1d(n):
         nu, g, h, th, beta = z3.Reals('nu gamma h theta0 beta')
         xs = [z3.RealVal(0)] + reals('x', n - 2) + [z3.RealVal(1)]      # dadi grids run from 0 to 1: M vanishes at both ends, one path
         ph = reals('phi', n)
-        hy = [T > t0, nu > 0, beta > 0, th >= 0] + [xs[i] < xs[i + 1] for i in range(n - 1)]
+        hy = [T > t0, nu > 0, beta > 0, th >= 0] + [xs[i] < xs[i + 1] for i in range(n - 1)] + ([t0 > 0] if late_start else [])
         delj = uf('delj', 3)
 
         def policy(fr):
             if fr.qualname == '_compute_dt':
                 def cdt(ex_, f_, a, k_):
                     d = ex_.ctx.fresh('dt')
-                    ex_.ctx.pc += [d > T - t0, d > 0]        # strictly longer than the epoch: min(dt, T - t) is then decided (at equality both are the same number)
+                    ex_.ctx.pc += [d > T - t0, d > 0] + ([d > T] if late_start else [])        # strictly longer than the epoch: min(dt, T - t) is then decided (at equality both are the same number)
                     return d
                 return cdt
             if fr.qualname == '_compute_delj':
@@ -1849,8 +1856,9 @@ def c02_const_1d(n):
                     absk = absk + z3.If(Mn >= 0, (CS.HALF / nu + Mn) * 2 / dx(n - 2), z3.RealVal(0))
                 from contracts.c_verify import _resolve
                 hyp = p.pc
-                out.append(prove_eq('%s.a[%d]' % (o, k), hyp, a.items[k], sa(k), func=fn, timeout_ms=30000, finding_key='C02/const1d/a', z3_first_ms=250))
-                out.append(prove_eq('%s.c[%d]' % (o, k), hyp, c.items[k], sc(k), func=fn, timeout_ms=30000, finding_key='C02/const1d/c', z3_first_ms=250))
+                if not late_start:
+                    out.append(prove_eq('%s.a[%d]' % (o, k), hyp, a.items[k], sa(k), func=fn, timeout_ms=30000, finding_key='C02/const1d/a', z3_first_ms=250))
+                    out.append(prove_eq('%s.c[%d]' % (o, k), hyp, c.items[k], sc(k), func=fn, timeout_ms=30000, finding_key='C02/const1d/c', z3_first_ms=250))
                 out.append(prove_eq('%s.b[%d]' % (o, k), hyp, _resolve(to_real(b.items[k]), hyp), _resolve(1 / dt + sb0(k) + absk, hyp), func=fn, timeout_ms=30000, finding_key='C02/const1d/b', z3_first_ms=250))
                 infl = dt * th / 2 / xs[1] * 2 / (xs[2] - xs[0]) if k == 1 else 0
                 out.append(prove_eq('%s.r[%d]' % (o, k), hyp, _resolve(to_real(exact(r.items[k])), hyp), (ph[k] + infl) / dt, func=fn, timeout_ms=30000, finding_key='C02/const1d/r', z3_first_ms=250))
@@ -4731,6 +4739,123 @@ def c17_integrate_2d(symmetric):
     return go()
 
 
+def c17_point_pos_2d():
+    """Cache2D.integrate_point_pos on a cache with 2 negative gammas g_0 < g_1 < 0 and two additional positive ones (3 and 5): gammas = [g_0, g_1, 3, 5],
+    spectra S[a][b] (1 x 1, symbolic) for population 1 at gammas[a] and population 2 at gammas[b], the bivariate density uninterpreted, the all-negative
+    quadrant by contract of Cache2D.integrate (called with the continuous parameters and theta = 1).  For every choice (gammapos1, gammapos2) in {3,5}^2:
+        fs/theta =  p++ S[a1][a2]  +  p+- sum_j w_j (sum_i w_i pdf(-g_i,-g_j)) S[a1][j]  +  p-+ sum_i w_i (sum_j w_j pdf(-g_i,-g_j)) S[i][a2]  +  p-- NN
+        p++ = p1 p2 + rho (sqrt(p1 p2) - p1 p2),  p+- = (1-rho) p1 (1-p2),  p-+ = (1-rho)(1-p1) p2,  p-- = (1-p1)(1-p2) + rho (1 - sqrt(p1 p2) - (1-p1)(1-p2))
+    (first index of the cached spectra and first argument of the density = population 1; the marginal density of the *other* population weights the mixed
+    quadrants; the quadrant weights sum to one - a lemma), and integrate_symmetric_point_pos forwards (ppos, gammapos) for both populations with
+    rho = the last continuous parameter."""
+    oid = 'C17/Cache2D_mod.py:Cache2D.integrate_point_pos'
+    fn = 'dadi/DFE/Cache2D_mod.py::Cache2D.integrate_point_pos'
+
+    @guarded(oid, fn)
+    def go():
+        out = []
+        g = reals('g', 2)
+        hy = [g[0] < g[1], g[1] < 0]
+        pos = [z3.RealVal(3), z3.RealVal(5)]
+        allg = list(g) + pos
+        # 2 x 2 spectra (numpy.squeeze in the code removes every axis of length one, so 1 x 1 spectra would not exercise the real broadcasting)
+        S = [[[[z3.Real('S%d%d_%d%d' % (a, b, u, v)) for v in range(2)] for u in range(2)] for b in range(4)] for a in range(4)]
+        mk = lambda: VList([VList([VList([VList(list(S[a][b][u]), 'ndarray') for u in range(2)], 'ndarray') for b in range(4)], 'ndarray') for a in range(4)], 'ndarray')
+        pdf = uf('pdf', 2)
+        theta, rho, p1, p2 = z3.Reals('theta rho ppos1 ppos2')
+        NNs = [[z3.Real('NN_%d%d' % (u, v)) for v in range(2)] for u in range(2)]
+        cont = reals('dfe_param', 2)
+        w = _trapz_weights(g)
+        sq = uf('sqrt')(p1 * p2)
+        ppp = p1 * p2 + rho * (sq - p1 * p2)
+        ppn = (1 - rho) * p1 * (1 - p2)
+        pnp = (1 - rho) * (1 - p1) * p2
+        pnn = (1 - p1) * (1 - p2) + rho * (1 - sq - (1 - p1) * (1 - p2))
+        out.append(prove_eq(oid + '/lemma.quadrant-weights-sum-to-one', [], ppp + ppn + pnp + pnn, z3.RealVal(1), fn))
+
+        def sel(x, y, p):
+            x, y = exact(x), exact(y)
+            if isinstance(x, VList) and isinstance(y, VList):
+                return VList([VList([pdf(to_real(a), to_real(b)) for b in y.items], 'ndarray') for a in x.items], 'ndarray')
+            raise Unsupported('density called on something other than two vectors')
+        sel_dist = PyFn(sel, 'biv_seldist')
+        for a1, a2 in itertools.product((2, 3), repeat=2):
+            me = Tm('self')
+            spectra = mk()
+            me.attrs.update(neg_gammas=VList(list(g), 'ndarray'), gammas=VList(list(allg), 'ndarray'), spectra=spectra)
+            calls = []
+
+            def integrate(*a, **kw):
+                calls.append((a, kw))
+                return VList([VList(list(NNs[u]), 'ndarray') for u in range(2)], 'ndarray')
+            me.attrs['integrate'] = PyFn(integrate, 'self.integrate')
+            ex = Executor()
+            f = ex.func('dadi/DFE/Cache2D_mod.py', 'Cache2D.integrate_point_pos')
+            params = VList(list(cont) + [p1, allg[a1], p2, allg[a2]])
+            tag = '%s/pos%d_%d' % (oid, a1 - 2, a2 - 2)
+            paths = ex.run(f, [me, params, None, sel_dist, theta], dict(rho=rho), base_pc=hy)
+            rets = [p for p in paths if p.outcome == 'return']
+            if len(rets) != 1 or len(paths) != 1:
+                out.append(struct(tag, False, 'expected one returning path: %r' % paths[:3], fn, undecided=True))
+                continue
+            v = exact(rets[0].value)
+            W = [[pdf(-g[i], -g[j]) for j in range(2)] for i in range(2)]
+            for u, v_ in itertools.product(range(2), repeat=2):
+                try:
+                    got = to_real(exact(exact(v.items[u]).items[v_]))
+                    assert len(v.items) == 2 and len(exact(v.items[u]).items) == 2
+                except Exception:
+                    out.append(struct('%s.value[%d,%d]' % (tag, u, v_), False, 'result is not a 2 x 2 spectrum: %s' % vrepr(rets[0].value)[:200], fn, undecided=True))
+                    continue
+                pos_neg = sum((w[j] * sum((w[i] * W[i][j] for i in range(2)), z3.RealVal(0)) * S[a1][j][u][v_] for j in range(2)), z3.RealVal(0))
+                neg_pos = sum((w[i] * sum((w[j] * W[i][j] for j in range(2)), z3.RealVal(0)) * S[i][a2][u][v_] for i in range(2)), z3.RealVal(0))
+                spec = theta * (ppp * S[a1][a2][u][v_] + ppn * pos_neg + pnp * neg_pos + pnn * NNs[u][v_])
+                out.append(prove_eq('%s.value[%d,%d]' % (tag, u, v_), hy + list(rets[0].pc), got, spec, fn))
+            a, kw = calls[-1] if calls else ((), {})
+            ok = len(calls) == 1 and len(a) >= 4 and [vrepr(x) for x in ex.iterate(a[0])] == [vrepr(x) for x in cont] and a[2] is sel_dist and vrepr(a[3]) in ('1', '1.0')
+            out.append(struct(tag + '.negative-quadrant', bool(ok), 'self.integrate(continuous parameters, ns, biv_seldist, 1, pts) exactly once: %s' % vrepr(list(a))[:160], fn))
+        # a requested positive gamma that is not in the cache is refused (IndexError), not silently replaced
+        me = Tm('self')
+        spectra = mk()
+        me.attrs.update(neg_gammas=VList(list(g), 'ndarray'), gammas=VList(list(allg), 'ndarray'), spectra=spectra)
+        me.attrs['integrate'] = PyFn(lambda *a, **kw: VList([VList(list(NNs[u]), 'ndarray') for u in range(2)], 'ndarray'), 'self.integrate')
+        for k, (gp1, gp2) in enumerate(((z3.RealVal(3), z3.RealVal(4)), (z3.RealVal(4), z3.RealVal(5)))):
+            ex = Executor()
+            f = ex.func('dadi/DFE/Cache2D_mod.py', 'Cache2D.integrate_point_pos')
+            paths = ex.run(f, [me, VList(list(cont) + [p1, gp1, p2, gp2]), None, sel_dist, theta], dict(rho=rho), base_pc=hy)
+            ok = len(paths) == 1 and paths[0].outcome == 'raise' and paths[0].exc.kind == 'IndexError'
+            out.append(struct('%s/missing-gamma%d.refused' % (oid, k), bool(ok), 'a positive gamma absent from the cache raises IndexError: %r' % [(p.outcome, str(p.exc)[:80]) for p in paths[:3]], fn))
+        # integrate_symmetric_point_pos: forwards (ppos, gammapos) for both populations, rho = last continuous parameter
+        fn2 = 'dadi/DFE/Cache2D_mod.py::Cache2D.integrate_symmetric_point_pos'
+        ex = Executor()
+        f = ex.func('dadi/DFE/Cache2D_mod.py', 'Cache2D.integrate_symmetric_point_pos')
+        me = Tm('self')
+        got = []
+
+        def ipp(*a, **kw):
+            got.append((a, kw))
+            return Tm('ipp_result')
+        me.attrs['integrate_point_pos'] = PyFn(ipp, 'self.integrate_point_pos')
+        mu, sg, rh, pp, gp = z3.Reals('mu sigma rho_param ppos gammapos')
+        paths = ex.run(f, [me, VList([mu, sg, rh, pp, gp]), None, sel_dist, theta])
+        ok = len(paths) == 1 and paths[0].outcome == 'return' and vrepr(paths[0].value) == 'ipp_result' and len(got) == 1
+        if ok:
+            a, kw = got[0]
+            sig = ['params', 'ns', 'biv_seldist', 'theta', 'rho', 'pts']
+            bound = dict(zip(sig, a))
+            bound.update(kw)
+            try:
+                pl = [vrepr(exact(x)) for x in ex.iterate(bound['params'])]
+            except Exception:
+                pl = None
+            ok = pl == [vrepr(x) for x in (mu, sg, rh, pp, gp, pp, gp)] and bound.get('biv_seldist') is sel_dist and bound.get('theta') is theta \
+                and vrepr(exact(bound.get('rho'))) == vrepr(rh)
+        out.append(struct('C17/Cache2D_mod.py:Cache2D.integrate_symmetric_point_pos/forwarding', bool(ok),
+                          'integrate_point_pos(continuous + [ppos, gammapos, ppos, gammapos], ns, biv_seldist, theta, rho = last continuous parameter): %s' % (vrepr(list(got[0][0]))[:200] + ' ' + vrepr(got[0][1])[:80] if got else paths[:2]), fn2))
+        return out
+    return go()
+
+
 def c18_no_call(nseq):
     """LowPass.probability_of_no_call_1D_GATK_multisample for nseq haplotypes, depths 0..2 with symbolic probabilities p_d >= 0 summing to one,
     genotype partitions and their probabilities by contract of partitions_and_probabilities (the exhaustive partitions of nseq/2 diploids; symbolic
@@ -4792,6 +4917,69 @@ def c18_no_call(nseq):
         for k, dv in enumerate(divisors):
             out.append(prove('%s.defined.divisor%d' % (oid, k), pc, dv != 0, fn, replay=replay))
         out.append(struct(oid + '.defined.count', True, '%d distinct symbolic divisors, each shown non-zero for every admissible coverage distribution' % len(divisors), fn))
+        return out
+    return go()
+
+
+import math as _math
+
+
+def c18_calling_error_matrix(nsub):
+    """LowPass.calling_error_matrix for nsub haplotypes (nsub/2 diploids), depths 0..2 with symbolic probabilities (p_1 + p_2 > 0), genotype partitions
+    and probabilities by contract of partitions_and_probabilities (exhaustive partitions; symbolic weights w), scipy.stats.binom.pmf by its documented sum.
+    With q = 2 * sum_{d>=1} p_d 2^-d / sum_{d>=1} p_d (a heterozygote read as a homozygote), entry by entry
+        T[a][b] = sum_{partitions c of a} w_c * sum_{e, r: e - 2r = b - a} C(t,e) q^e (1-q)^(t-e) * C(e,r) 2^-e         (t = number of heterozygotes in c)
+    so that every row sums to the total weight of its partitions (row-stochastic when those sum to one) and entries are non-negative for 0 <= q <= 1."""
+    oid = 'C18/LowPass.py:calling_error_matrix/nsub%d' % nsub
+    fn = 'dadi/LowPass/LowPass.py::calling_error_matrix'
+
+    @guarded(oid, fn)
+    def go():
+        nind = nsub // 2
+        p = reals('p', 3)
+        hy = [x >= 0 for x in p] + [p[0] + p[1] + p[2] == 1, p[1] + p[2] > 0]
+        parts = [[list(c) for c in itertools.combinations_with_replacement((0, 1, 2), nind) if sum(c) == af] for af in range(nsub + 1)]
+        probs = [[z3.Real('w%d_%d' % (af, k)) for k in range(len(parts[af]))] for af in range(nsub + 1)]
+        seen = []
+
+        def pol(fr):
+            if fr.qualname == 'partitions_and_probabilities':
+                def stub(ex_, f_, a, kw):
+                    seen.append((a, kw))
+                    return (VList([VList([VList(list(c)) for c in ps]) for ps in parts]), VList([VList(list(w), 'ndarray') for w in probs]))
+                return stub
+            return 'inline' if fr.qualname == 'calling_error_matrix' else 'abstract'
+        ex = Executor(policy=pol)
+        f = ex.func('dadi/LowPass/LowPass.py', 'calling_error_matrix')
+        cd = VList([VList([0, 1, 2], 'ndarray'), VList(list(p), 'ndarray')], 'ndarray')
+        Fx = z3.Real('Fx')
+        paths = ex.run(f, [cd, nsub, Fx], {}, base_pc=hy)
+        if len(paths) != 1 or paths[0].outcome != 'return':
+            return [struct(oid, False, 'expected one returning path: %r' % paths[:2], fn, undecided=True)]
+        T = paths[0].value
+        pc = hy + list(paths[0].pc)
+        out = []
+        a, kw = seen[0] if seen else ((), {})
+        ok = len(seen) == 1 and len(a) >= 2 and a[0] == nsub and a[1] == 'genotype' and ((len(a) > 2 and a[2] is Fx) or kw.get('Fx') is Fx)
+        out.append(struct(oid + '.partitions', bool(ok), 'partitions_and_probabilities(n_subsampling, "genotype", Fx) once: %s %s' % (vrepr(list(a))[:80], vrepr(kw)[:40]), fn))
+        q = 2 * (p[1] / 2 + p[2] / 4) / (p[1] + p[2])
+        rows = ex.iterate(T)
+        out.append(prove(oid + '.lemma.miscall-probability-in-unit-interval', hy, z3.And(q >= 0, q <= 1), fn))
+        out.append(struct(oid + '.shape', len(rows) == nsub + 1 and all(len(ex.iterate(r)) == nsub + 1 for r in rows), '(nsub+1) x (nsub+1)', fn))
+        for af in range(nsub + 1):
+            row = ex.iterate(rows[af])
+            total = z3.RealVal(0)
+            for b in range(nsub + 1):
+                want = z3.RealVal(0)
+                for c, w in zip(parts[af], probs[af]):
+                    t = c.count(1)
+                    for e in range(t + 1):
+                        for r in range(e + 1):
+                            if e - 2 * r == b - af:
+                                want = want + w * _math.comb(t, e) * _pw(q, e) * _pw(1 - q, t - e) * _math.comb(e, r) / z3.RealVal(2 ** e)
+                out.append(prove_eq('%s.entry[%d,%d]' % (oid, af, b), pc, row[b], want, fn))
+                total = total + to_real(exact(row[b]))
+            out.append(prove_eq('%s.row%d.sums-to-partition-weight' % (oid, af), pc, total, sum(probs[af], z3.RealVal(0)), fn))
         return out
     return go()
 
